@@ -802,3 +802,62 @@ func VH02l_deadline_race() {
 	}
 	sock.Close()
 }
+
+// VH02m_push_long: N (12) messages through a PUSH socket with three PULL
+// peers, write queue length 1..2, one of the peers slow for a while (it takes
+// its first message only after the sixth Send). Every message reaches exactly
+// one peer, unchanged; on each connection the messages arrive in send order;
+// no Send waits while a ready peer is idle.
+func VH02m_push_long() {
+	N := verif.Param("N", 12)
+	proto := pushes[verif.Choice("proto", 2)]
+	lab := "C02/" + proto + "/long"
+	sock := vp.New(proto)
+	wq := 1 + verif.Choice("wqlen", 2)
+	verif.Assert(sock.SetOption(mangos.OptionWriteQLen, wq) == nil, lab+"/set-wqlen")
+	side := vt.Listen(sock, "a")
+	peers := []*vt.Pipe{side.Peer("p0"), side.Peer("p1"), side.Peer("p2")}
+	slow := verif.Choice("slow", 4) // which peer is slow at first (3: none)
+	if slow < 3 {
+		peers[slow].SendMode = vt.SendBlock
+	}
+	var bodies [][]byte
+	for i := 0; i < N; i++ {
+		b := []byte{byte('a' + i), verif.Byte("out")}
+		bodies = append(bodies, b)
+		var serr error
+		g := verif.Go("send", func() { serr = sock.Send(b) })
+		verif.Quiesce()
+		verif.Assert(g.Done() && serr == nil, lab+"/send-blocks-although-a-ready-peer-is-idle")
+		if !g.Done() {
+			return
+		}
+		if i == 5 && slow < 3 {
+			peers[slow].SendMode = vt.SendOK
+			for k := 0; k < 4; k++ {
+				peers[slow].Release()
+			}
+			verif.Quiesce()
+		}
+	}
+	verif.Quiesce()
+	total := 0
+	for _, p := range peers {
+		last := -1
+		for _, r := range p.Sent {
+			w := r.Bytes()
+			verif.Assert(len(w) == 2, lab+"/wire-length")
+			if len(w) != 2 {
+				continue
+			}
+			idx := int(w[0] - 'a')
+			verif.Assert(idx >= 0 && idx < N && verif.BytesEq(w, bodies[idx]), lab+"/invented-or-changed-message")
+			verif.Assert(idx > last, lab+"/reordered-or-duplicated-on-one-connection")
+			last = idx
+			total++
+		}
+	}
+	verif.Assert(total == N, lab+"/message-lost-or-duplicated-with-all-connections-up")
+	verif.Reach("push-long-checked")
+	sock.Close()
+}
